@@ -428,11 +428,54 @@ def ladder(src, ref, disable_reorder=False, disable_orphans=False, disable_dim=F
 
 def compare_impl(src, ref, **kw):
     from fieldcompare.mesh import MeshFieldsComparator
+    msgs = []
     with quiet():
         warnings.simplefilter("ignore")
-        suite = MeshFieldsComparator(src, ref, **kw)(fieldcomp_callback=lambda c: None)
-    return {"domain": bool(suite.domain_equality_check), "bool": bool(suite),
+        suite = MeshFieldsComparator(src, ref, **kw)(fieldcomp_callback=lambda c: None, reordering_callback=msgs.append)
+    stage = 0
+    for m in msgs:
+        for key, idx in (("extended points", 1), ("sorted points", 2), ("sorted cells", 3)):
+            if f"Retrying with {key}" in m:
+                stage = idx
+    return {"domain": bool(suite.domain_equality_check), "bool": bool(suite), "stage": stage,
             "fields": sorted((c.name, c.status.name) for c in suite)}
+
+
+def ladder_expr(A, B, opts):
+    """Gallina expression: Model.Mesh.ladder on the four view pairs built with the public transformations"""
+    from fieldcompare.mesh import strip_orphan_points, sort_points, sort_cells, extend_space_dimension_to
+    src, ref = G.to_fieldcompare(A), G.to_fieldcompare(B)
+    dd = opts.get("disable_space_dimension_matching", False)
+    dr = opts.get("disable_mesh_reordering", False)
+    do = opts.get("disable_orphan_point_removal", False)
+    views = [(src, ref)]
+    if A["dim"] != B["dim"] and not dd:
+        m = max(A["dim"], B["dim"])
+        src, ref = extend_space_dimension_to(m, src), extend_space_dimension_to(m, ref)
+    views.append((src, ref))
+
+    def perm(f):
+        return sort_points(f if do else strip_orphan_points(f))
+    src, ref = perm(src), perm(ref)
+    views.append((src, ref))
+    src, ref = sort_cells(src), sort_cells(ref)
+    views.append((src, ref))
+    rel = min(tol_of(views[0][0])[0], tol_of(views[0][1])[0])
+    ab = min(tol_of(views[0][0])[1], tol_of(views[0][1])[1])
+    pairs = [f"({coq_mesh(G.from_fieldcompare(a))}, {coq_mesh(G.from_fieldcompare(b))})" for a, b in views]
+    return (f"ladder (mesh_equal {lib.cqfrac(rel)} {lib.cqfrac(ab)}) {lib.cbool(dd)} {lib.cbool(dr)} false "
+            f"{{| lv_as_is := {pairs[0]}; lv_extended := {pairs[1]}; lv_sorted_points := {pairs[2]}; lv_sorted_cells := {pairs[3]} |}}")
+
+
+def run_ladder_batch(ctx, batch):
+    """T2: verdict and last stage of MeshFieldsComparator vs Model.Mesh.ladder over Model.Mesh.mesh_equal"""
+    exprs = [e for _, e, _ in batch]
+    vals = ctx.coq_eval(HEADER, exprs, name="ladder", shard=40)
+    for (canon, _, im), (verdict, stage) in zip(batch, vals):
+        ctx.tie("MeshFieldsComparator vs Model.Mesh.ladder")
+        if verdict != im["domain"] or (stage != im["stage"]):
+            ctx.violation("E2", f"ladder: model (verdict {verdict}, stage {stage}) != implementation (verdict {im['domain']}, stage {im['stage']})",
+                          canon, found_input=False)
 
 
 def stage_exprs(stages):
@@ -710,6 +753,7 @@ def run_c03(ctx):
     n = 220 if q else 6000
     rng = ctx.rng
     stage_batch = []
+    ladder_batch = []
     for it in range(n):
         M = G.add_fields(rng, G.gen_mesh(rng, max_cells=5), kinds=("scalar", "vector", "int"))
         if rng.random() < 0.2:
@@ -748,12 +792,21 @@ def run_c03(ctx):
                     continue
                 ctx.violation("E4", f"comparison raised {type(e).__name__}: {e} instead of failing", canon)
                 continue
+            if (len(ladder_batch) < (50 if q else 1200) and len(A["pts"]) <= 14 and not G.has_coincident_points(A)
+                    and not G.has_coincident_points(B) and desc[0] not in ("pfield", "cfield")):
+                try:
+                    with quiet():
+                        warnings.simplefilter("ignore")
+                        ladder_batch.append((canon, ladder_expr(A, B, opts), res))
+                except Exception:  # noqa: BLE001
+                    pass
             if res["bool"]:
                 ctx.violation("E4", f"comparison PASSES although the data sets differ ({desc[0]})", canon, impl=res)
             elif desc[0] in ("move", "rewire", "remove_cell", "duplicate_cell", "drop_block") and direct and not reorder:
                 ctx.violation("E4", f"Mesh.equals answers 'equal' although the meshes differ ({desc[0]})", canon)
             ctx.traces_validated += 1
     run_stage_batch(ctx, stage_batch)
+    run_ladder_batch(ctx, ladder_batch)
     ctx.rule = ("meshes as in C02 with exactly one single-site modification on one side (move a point along one axis by 16..1e6 "
                 "tolerances, rewire one corner, remove one cell, drop a whole cell-type block, change one point/cell field entry), "
                 "at EVERY site for small meshes and random sites otherwise, with and without relabeling, in both roles, with the "
@@ -983,6 +1036,7 @@ def run_c17(ctx):
     q = ctx.tier == "quick"
     n = 700 if q else 20000
     rng = ctx.rng
+    ladder_batch = []
     for _ in range(n):
         M = None
         while M is None or M["dim"] == 3:
@@ -1030,6 +1084,13 @@ def run_c17(ctx):
             continue
         ctx.case(canon, True, sample={"case": {k: canon[k] for k in ("variant", "site", "role", "disable_space_dimension_matching", "reordered")},
                                       "dim": M["dim"], "impl": res})
+        if len(ladder_batch) < (40 if q else 1000) and len(M["pts"]) <= 16 and not G.has_coincident_points(M):
+            try:
+                with quiet():
+                    warnings.simplefilter("ignore")
+                    ladder_batch.append((canon, ladder_expr(A, B, {"disable_space_dimension_matching": disabled}), res))
+            except Exception:  # noqa: BLE001
+                pass
         ctx.count(f"c17:{variant}:{'disabled' if disabled else 'enabled'}")
         ctx.count(f"c17:dim{M['dim']}")
         scalars_ok = all(st == "passed" for nm, st in res["fields"] if nm.split(" @ ")[0] in ("p", "id", "c"))
@@ -1045,6 +1106,7 @@ def run_c17(ctx):
             elif variant in ("vector", "tensor") and res["domain"] and not scalars_ok:
                 ctx.violation("E4", "scalar fields are affected by the space-dimension matching", canon, impl=res)
         ctx.traces_validated += 1
+    run_ladder_batch(ctx, ladder_batch)
     ctx.rule = ("meshes of space dimension 1-2 with scalar / vector / tensor / int point and cell fields against their zero-padded "
                 "3-component copies (padding done by the harness), both roles, with and without relabeling, matching enabled or "
                 "disabled, optionally one non-zero entry in a padded coordinate / vector component / tensor component")
